@@ -1,0 +1,123 @@
+// SPDX-License-Identifier: GPL-3.0-or-later
+
+//go:build verif
+// +build verif
+
+package tcpclv4
+
+import (
+	"io"
+
+	"github.com/dtn7/dtn7-go/pkg/bpv7"
+	"github.com/dtn7/dtn7-go/pkg/cla/tcpclv4/internal/msgs"
+	"github.com/dtn7/dtn7-go/pkg/cla/tcpclv4/internal/stages"
+	"github.com/dtn7/dtn7-go/pkg/cla/tcpclv4/internal/utils"
+)
+
+// This file re-exports parts of the internal packages for external runtime verification (build tag verif).
+
+type (
+	VerifMessage                    = msgs.Message
+	VerifContactFlags               = msgs.ContactFlags
+	VerifContactHeader              = msgs.ContactHeader
+	VerifKeepaliveMessage           = msgs.KeepaliveMessage
+	VerifMessageRejectionReason     = msgs.MessageRejectionReason
+	VerifMessageRejectionMessage    = msgs.MessageRejectionMessage
+	VerifSessionInitMessage         = msgs.SessionInitMessage
+	VerifSessionTerminationFlags    = msgs.SessionTerminationFlags
+	VerifSessionTerminationCode     = msgs.SessionTerminationCode
+	VerifSessionTerminationMessage  = msgs.SessionTerminationMessage
+	VerifDataAcknowledgementMessage = msgs.DataAcknowledgementMessage
+	VerifTransferRefusalCode        = msgs.TransferRefusalCode
+	VerifTransferRefusalMessage     = msgs.TransferRefusalMessage
+	VerifSegmentFlags               = msgs.SegmentFlags
+	VerifDataTransmissionMessage    = msgs.DataTransmissionMessage
+
+	VerifOutgoingTransfer          = utils.OutgoingTransfer
+	VerifIncomingTransfer          = utils.IncomingTransfer
+	VerifTransferManager           = utils.TransferManager
+	VerifMessageSwitch             = utils.MessageSwitch
+	VerifMessageSwitchReaderWriter = utils.MessageSwitchReaderWriter
+
+	VerifConfiguration        = stages.Configuration
+	VerifState                = stages.State
+	VerifStage                = stages.Stage
+	VerifStageSetup           = stages.StageSetup
+	VerifStageHandler         = stages.StageHandler
+	VerifContactStage         = stages.ContactStage
+	VerifSessInitStage        = stages.SessInitStage
+	VerifSessEstablishedStage = stages.SessEstablishedStage
+)
+
+const (
+	VerifSegmentEnd   = msgs.SegmentEnd
+	VerifSegmentStart = msgs.SegmentStart
+
+	VerifSESS_INIT    = msgs.SESS_INIT
+	VerifSESS_TERM    = msgs.SESS_TERM
+	VerifXFER_SEGMENT = msgs.XFER_SEGMENT
+	VerifXFER_ACK     = msgs.XFER_ACK
+	VerifXFER_REFUSE  = msgs.XFER_REFUSE
+	VerifKEEPALIVE    = msgs.KEEPALIVE
+	VerifMSG_REJECT   = msgs.MSG_REJECT
+)
+
+var VerifStageClose = stages.StageClose
+
+func VerifReadMessage(r io.Reader) (msgs.Message, error) { return msgs.ReadMessage(r) }
+
+func VerifNewMessage(typeCode uint8) (msgs.Message, error) { return msgs.NewMessage(typeCode) }
+
+func VerifNewContactHeader(flags msgs.ContactFlags) *msgs.ContactHeader {
+	return msgs.NewContactHeader(flags)
+}
+
+func VerifNewKeepaliveMessage() *msgs.KeepaliveMessage { return msgs.NewKeepaliveMessage() }
+
+func VerifNewMessageRejectionMessage(reason msgs.MessageRejectionReason, header uint8) *msgs.MessageRejectionMessage {
+	return msgs.NewMessageRejectionMessage(reason, header)
+}
+
+func VerifNewSessionInitMessage(keepalive uint16, segmentMru, transferMru uint64, nodeId string) *msgs.SessionInitMessage {
+	return msgs.NewSessionInitMessage(keepalive, segmentMru, transferMru, nodeId)
+}
+
+func VerifNewSessionTerminationMessage(flags msgs.SessionTerminationFlags, reason msgs.SessionTerminationCode) *msgs.SessionTerminationMessage {
+	return msgs.NewSessionTerminationMessage(flags, reason)
+}
+
+func VerifNewDataAcknowledgementMessage(flags msgs.SegmentFlags, tid, ackLen uint64) *msgs.DataAcknowledgementMessage {
+	return msgs.NewDataAcknowledgementMessage(flags, tid, ackLen)
+}
+
+func VerifNewTransferRefusalMessage(reason msgs.TransferRefusalCode, tid uint64) *msgs.TransferRefusalMessage {
+	return msgs.NewTransferRefusalMessage(reason, tid)
+}
+
+func VerifNewDataTransmissionMessage(flags msgs.SegmentFlags, tid uint64, data []byte) *msgs.DataTransmissionMessage {
+	return msgs.NewDataTransmissionMessage(flags, tid, data)
+}
+
+func VerifNewOutgoingTransfer(id uint64) (*utils.OutgoingTransfer, io.Writer) {
+	return utils.NewOutgoingTransfer(id)
+}
+
+func VerifNewBundleOutgoingTransfer(id uint64, b bpv7.Bundle) *utils.OutgoingTransfer {
+	return utils.NewBundleOutgoingTransfer(id, b)
+}
+
+func VerifNewIncomingTransfer(id uint64) *utils.IncomingTransfer {
+	return utils.NewIncomingTransfer(id)
+}
+
+func VerifNewTransferManager(msgIn <-chan msgs.Message, msgOut chan<- msgs.Message, segmentMtu uint64) *utils.TransferManager {
+	return utils.NewTransferManager(msgIn, msgOut, segmentMtu)
+}
+
+func VerifNewMessageSwitchReaderWriter(in io.Reader, out io.Writer) *utils.MessageSwitchReaderWriter {
+	return utils.NewMessageSwitchReaderWriter(in, out)
+}
+
+func VerifNewStageHandler(stgs []stages.StageSetup, msgIn <-chan msgs.Message, msgOut chan<- msgs.Message, config stages.Configuration) *stages.StageHandler {
+	return stages.NewStageHandler(stgs, msgIn, msgOut, config)
+}
